@@ -179,4 +179,16 @@ theorem translated_xor_is_model (pos : List Sim.Src) (own : Val) (outC outS : Na
   generalize (List.filter Val.truthy (List.map (Sim.Src.val outC outS) pos)).length = n
   rcases Nat.mod_two_eq_zero_or_one n with h | h <;> simp [h]
 
+theorem translated_not_is_model (x : Sim.Src) (own : Val) (outC outS : Nat → Val) :
+    Sim.calcBlk { fn := .not, pos := [x] } own outC outS = Val.bool (Gen.Tr.notCalc (x.val outC outS)) := by
+  simp [Sim.calcBlk, Gen.Tr.notCalc]
+
+theorem translated_and_is_model (pos : List Sim.Src) (own : Val) (outC outS : Nat → Val) :
+    Sim.calcBlk { fn := .and, pos := pos } own outC outS
+      = Val.bool (Gen.Tr.andFunc (pos.map (Sim.Src.val outC outS))) := rfl
+
+theorem translated_or_is_model (pos : List Sim.Src) (own : Val) (outC outS : Nat → Val) :
+    Sim.calcBlk { fn := .or, pos := pos } own outC outS
+      = Val.bool (Gen.Tr.orFunc (pos.map (Sim.Src.val outC outS))) := rfl
+
 end Edzed.TrTie
